@@ -1,8 +1,8 @@
 PLAN = {
     "level": "exploration",
     # one harness, the first tape value picks the helper: a third of the cases each
-    "quick": [replays("C19"), tape("C19", 200000, size=300)],
-    "thorough": [replays("C19"), tape("C19", 4000000, size=400)],
+    "quick": [replays("C19"), tape("C19", 160000, size=300)],
+    "thorough": [replays("C19"), tape("C19", 2400000, size=400)],
     "class_floors": {
         "helper=fixVariableInterfaces": 0.25, "helper=linkUnits": 0.25, "helper=clean": 0.25,
         # fixVariableInterfaces
